@@ -35,10 +35,10 @@ pub fn extract<'tcx>(tcx: TyCtxt<'tcx>) -> J {
     let mut const_bodies = Vec::new();
     for ldid in tcx.hir_body_owners() {
         let did = ldid.to_def_id();
-        if let DefKind::Const { .. } = tcx.def_kind(did) {
-            if tcx.generics_of(did).count() == 0 {
-                const_bodies.push(cx.body(ldid));
-            }
+        if matches!(tcx.def_kind(did), DefKind::Const { .. } | DefKind::AssocConst { .. }) {
+            // (generic ones too - `const PREFIX_SIZE: usize = size_of::<HeaderSlice<H, [T; 0]>>()` in a generic impl: evaluated by
+            // the layout evaluator per shape)
+            const_bodies.push(cx.body(ldid));
         }
     }
     let mut adts = Vec::new();
@@ -284,7 +284,7 @@ impl<'tcx> Cx<'tcx> {
         let did = ldid.to_def_id();
         let kind = tcx.def_kind(did);
         let key = self.stable_path(did);
-        let body: &'tcx Body<'tcx> = if matches!(kind, DefKind::Const { .. }) { tcx.mir_for_ctfe(did) } else { tcx.optimized_mir(did) };
+        let body: &'tcx Body<'tcx> = if matches!(kind, DefKind::Const { .. } | DefKind::AssocConst { .. }) { tcx.mir_for_ctfe(did) } else { tcx.optimized_mir(did) };
         self.cur_body = Some(body);
         let tenv = TypingEnv::post_analysis(tcx, did);
         let mut o = J::obj().put("key", key);
@@ -521,6 +521,12 @@ impl<'tcx> Cx<'tcx> {
         if let ty::FnDef(did, args) = t.kind() {
             o.set("fn", self.stable_path(*did));
             o.set("fn_args", self.gargs(args));
+        }
+        // a constant that cannot be evaluated here because it depends on type parameters (`Self::PREFIX_SIZE`): which item it is
+        if let mir::Const::Unevaluated(uv, _) = c {
+            if uv.promoted.is_none() {
+                o.set("unevaluated", self.stable_path(uv.def));
+            }
         }
         let scalar_ok = matches!(t.kind(), ty::Bool | ty::Char | ty::Int(_) | ty::Uint(_)) || matches!(t.kind(), ty::Adt(d, _) if d.is_enum());
         if scalar_ok {
